@@ -681,3 +681,99 @@ def _single_tick(texts):
     seg += "        new._tick_over()\n"
     texts["data"] = src[:a] + seg + src[b:]
     return texts
+
+
+# ================================================== R14 / R15 / R32 zones ===
+B("c02-cmp-self-not-rolled", ["C02"], ["R15"],
+  ("data", "        this = self._roll_over_24()\n        if this.get_is_calendar_date():",
+   "        this = self\n        if this.get_is_calendar_date():"),
+  canary=True, note="partial revert of fix D4")
+B("c02-cmp-other-not-rolled", ["C02"], ["R15"],
+  ("data", "        other = other.to_time_zone(self._time_zone)._roll_over_24()\n        this = self._roll_over_24()\n        if this.get_is_calendar_date():",
+   "        other = other.to_time_zone(self._time_zone)\n        this = self._roll_over_24()\n        if this.get_is_calendar_date():"))
+B("c02-hash-not-rolled", ["C02"], ["R15"],
+  ("data", "        point = self.to_utc()._roll_over_24()", "        point = self.to_utc()"))
+B("c04-sub-not-rolled", ["C04"], ["R15"],
+  ("data", "            this = self._roll_over_24()\n            my_year, my_day_of_year = this.get_ordinal_date()",
+   "            this = self\n            my_year, my_day_of_year = this.get_ordinal_date()"),
+  canary=True)
+B("c02-roll-over-without-tick", ["C02", "C04"], ["R15"],
+  ("data", "        new = self._copy()\n        new._tick_over()\n        return new\n\n    def get_props",
+   "        new = self._copy()\n        return new\n\n    def get_props"))
+B("c02-cmp-no-rezone", ["C02"], ["R14"],
+  ("data", "        other = other.to_time_zone(self._time_zone)._roll_over_24()\n        this = self._roll_over_24()\n        if this.get_is_calendar_date():",
+   "        other = other._roll_over_24()\n        this = self._roll_over_24()\n        if this.get_is_calendar_date():"),
+  canary=True)
+B("c02-cmp-read-before-rezone", ["C02"], ["R14", "R15"],
+  ("data", "        other = other.to_time_zone(self._time_zone)._roll_over_24()\n"
+           "        this = self._roll_over_24()\n"
+           "        if this.get_is_calendar_date():\n"
+           "            my_date = this.get_calendar_date()\n"
+           "            other_date = other.get_calendar_date()\n",
+   "        this = self._roll_over_24()\n"
+   "        if this.get_is_calendar_date():\n"
+   "            my_date = this.get_calendar_date()\n"
+   "            other_date = other.get_calendar_date()\n"
+   "        other = other.to_time_zone(self._time_zone)._roll_over_24()\n"
+   "        if this.get_is_calendar_date():\n"
+   "            pass\n"))
+B("c02-hash-no-utc", ["C02"], ["R14"],
+  ("data", "        point = self.to_utc()._roll_over_24()", "        point = self._roll_over_24()"))
+B("c04-sub-no-rezone", ["C04"], ["R14"],
+  ("data", "            other = other.to_time_zone(self._time_zone)._roll_over_24()\n            this = self._roll_over_24()\n            my_year",
+   "            other = other._roll_over_24()\n            this = self._roll_over_24()\n            my_year"))
+B("c06-zone-slot-not-updated", ["C06"], ["R14"],
+  ("data", "        new = self + (dest_time_zone - self._time_zone)\n        new._time_zone = dest_time_zone\n",
+   "        new = self + (dest_time_zone - self._time_zone)\n"), canary=True)
+B("c06-zone-slot-own-zone", ["C06"], ["R14"],
+  ("data", "        new._time_zone = dest_time_zone\n",
+   "        new._time_zone = self._time_zone\n"))
+B("c06-shift-reversed", ["C06"], ["R14"],
+  ("data", "        new = self + (dest_time_zone - self._time_zone)",
+   "        new = self + (self._time_zone - dest_time_zone)"))
+B("c06-dumper-format-before-convert", ["C06"], ["R14"],
+  (lambda texts: _dumper_convert_last(texts)))
+B("c06-dumper-pair-swapped", ["C06"], ["R14"],
+  ("dumpers", "                new_time_zone = TimeZone(hours=custom_time_zone[0],\n"
+              "                                         minutes=custom_time_zone[1])",
+   "                new_time_zone = TimeZone(hours=custom_time_zone[1],\n"
+   "                                         minutes=custom_time_zone[0])"))
+B("c06-dumper-minus-zone-ignored", ["C06"], ["R14"],
+  ("dumpers", "                time_zone_string = \"-\" + time_zone_string\n"
+              "                custom_time_zone = self.get_time_zone(time_zone_string)",
+   "                time_zone_string = \"-\" + time_zone_string"))
+B("c20-truncated-result-not-converted-back", ["C20"], ["R14"],
+  ("data", "                return new.to_time_zone(other._time_zone)", "                return new"),
+  canary=True)
+B("c20-truncated-search-in-wrong-zone", ["C20"], ["R14"],
+  ("data", "                new = other.to_time_zone(self._time_zone)\n", "                new = other\n"))
+B("c04-sub-not-negated", ["C04"], ["R32"],
+  ("data", "                return -1 * (other - self)", "                return other - self"),
+  canary=True)
+B("c04-year-range-orientation", ["C04"], ["R32"],
+  ("data", "                diff_day += get_days_in_year_range(other_year, my_year - 1)",
+   "                diff_day += get_days_in_year_range(other_year, my_year)"))
+B("c19-diff-sign-flipped", ["C19"], ["R32"],
+  ("datetimeoper", "            return (time_point_1 - time_point_2, \"-\")\n        else:\n            return (time_point_2 - time_point_1, \"\")",
+   "            return (time_point_1 - time_point_2, \"\")\n        else:\n            return (time_point_2 - time_point_1, \"-\")"),
+  canary=True)
+B("c19-diff-operands-flipped", ["C19"], ["R32"],
+  ("datetimeoper", "            return (time_point_2 - time_point_1, \"\")",
+   "            return (time_point_1 - time_point_2, \"\")"))
+K("c02k-cmp-key-in-helper-order",
+  ("data", "        other = other.to_time_zone(self._time_zone)._roll_over_24()\n        this = self._roll_over_24()\n        if this.get_is_calendar_date():",
+   "        this = self._roll_over_24()\n        other = other.to_time_zone(self._time_zone)\n        other = other._roll_over_24()\n        if this.get_is_calendar_date():"))
+K("c19k-diff-mirrored-test",
+  ("datetimeoper", "        if time_point_2 < time_point_1:", "        if time_point_1 > time_point_2:"))
+
+
+def _dumper_convert_last(texts):
+    src = texts["dumpers"]
+    a = src.find("        if custom_time_zone is not None:\n            if custom_time_zone == (0, 0):")
+    b = src.find("        property_map = {}")
+    c = src.find("        return expression % property_map")
+    if min(a, b, c) < 0 or not a < b < c:
+        raise LookupError("dumper blocks")
+    conv = src[a:b]
+    texts["dumpers"] = src[:a] + src[b:c] + conv + src[c:]
+    return texts
